@@ -61,6 +61,19 @@ func main() {
 			fmt.Println(len(cx.Findings), "candidates")
 			return
 		}
+		if *xref == "const-index" {
+			xrefConstIndex(p)
+			return
+		}
+		if *xref == "read-deref" {
+			cx := NewCtx(p, "XREF")
+			runReadResultsNilTested(cx, "XREF-read-deref")
+			for _, f := range cx.Findings {
+				fmt.Println(f.Pos, f.Construct)
+			}
+			fmt.Println(len(cx.Findings), "candidates")
+			return
+		}
 		if *xref == "same-args" {
 			xrefSameArgs(p)
 			return
